@@ -307,6 +307,30 @@ class Names:
             return "{%s}" % ", ".join(self._clit(f, it) for f in t[1])
         return "{%s}" % ", ".join(self._clit(t[2], it) for _ in range(t[1]))
 
+    def go_first_leaf(self, var):
+        """Go expression of the first scalar leaf of `var` (a pointer to or value of the top-level type)"""
+        t, e = self.t, var
+        while t[0] != "sc":
+            if t[0] == "st":
+                if not t[1]:
+                    return None
+                e, t = e + ".F0", t[1][0]
+            else:
+                e, t = e + "[0]", t[2]
+        return e
+
+    def first_leaf_ok(self):
+        """the first leaf is reachable by always taking member 0 (no leading empty struct)"""
+        t = self.t
+        while t[0] != "sc":
+            if t[0] == "st":
+                if not t[1] or nleaves(t[1][0]) == 0:
+                    return False
+                t = t[1][0]
+            else:
+                t = t[2]
+        return True
+
     def c_leaf_exprs(self, var):
         """C expressions of the leaves of `var` (a struct value or pointer deref), in leaf order"""
         out = []
@@ -369,6 +393,7 @@ class Case:
           'echo' Go -> C   T f(pre.., T, post..)
           'cbs'  C -> Go   callback  T g(pre.., T, post..)      (Go function passed to a C driver)
           'cbi'  C -> Go   callback  int32 g(pre.., T, post..)
+          'cbm'  C -> Go   callback  T g(T *p) { r := *p; p.<first leaf> = v; return r }   (copy, mutate the pointee, return the copy)
     """
 
     def __init__(self, idx, kind, shape_idx, t, pre, post, rng, closure=False, capture=False):
@@ -381,16 +406,24 @@ class Case:
         self.arg_v = rand_values(rng, t)
         self.ret_v = rand_values(rng, t)
         self.marker = (MARKER_BASE + idx) & 0x7FFFFFFF
+        if kind == "cbm":
+            self.pre, self.post, self.pre_v, self.post_v = [], [], [], []
+            c0 = layout(t)[2][0][1]
+            self.mut_v = rand_value(rng, c0)
+            while self.mut_v[1] == self.arg_v[0][1]:
+                self.mut_v = rand_value(rng, c0)
 
     def has_arg(self):
         return self.kind != "ret"
 
     def ret_struct(self):
-        return self.kind in ("ret", "echo", "cbs")
+        return self.kind in ("ret", "echo", "cbs", "cbm")
 
     def sig_words(self):
         """protocol words: RET P1 P2 ..  (for `sig` / `place` lines)"""
         r = code(self.t) if self.ret_struct() else "w"
+        if self.kind == "cbm":
+            return [r, "p"]
         ps = list(self.pre) + ([code(self.t)] if self.has_arg() else []) + list(self.post)
         return [r] + ps
 
@@ -398,6 +431,8 @@ class Case:
         return len(self.pre) if self.has_arg() else None
 
     def expected(self):
+        if self.kind == "cbm":    # the returned copy carries the ORIGINAL values; then the pointee's first leaf, mutated
+            return [v[1] for v in self.arg_v] + [self.mut_v[1]]
         w = [v[1] for v in self.pre_v]
         if self.has_arg():
             w += [v[1] for v in self.arg_v]
@@ -409,6 +444,8 @@ class Case:
         return w
 
     def word_labels(self):
+        if self.kind == "cbm":
+            return ["ret.leaf%d:%s@%d" % (i, c, o) for i, (o, c) in enumerate(layout(self.t)[2])] + ["pointee.leaf0.after"]
         lab = ["pre%d:%s" % (i, c) for i, c in enumerate(self.pre)]
         if self.has_arg():
             lab += ["arg.leaf%d:%s@%d" % (i, c, o) for i, (o, c) in enumerate(layout(self.t)[2])]
@@ -471,6 +508,24 @@ def build_sources(shapes, cases):
         cpl = ", ".join(cparams) if cparams else "void"
         cval_a = "static const %s va%d = %s;" % (T, k, nm.c_lit(cs.arg_v))
         cval_r = "static const %s vr%d = %s;" % (T, k, nm.c_lit(cs.ret_v))
+        if cs.kind == "cbm":
+            c0 = layout(cs.t)[2][0][1]
+            cleaf0 = nm.c_leaf_exprs("s")[0][1]
+            callee.append(cval_a)
+            callee.append("void d%d(%s (*f)(%s *)) { %s s = va%d; %s r = f(&s); vlogT%d(&r); %s }" %
+                          (k, T, T, T, k, T, cs.shape_idx, C_PUSH[c0] % cleaf0))
+            h.append("void d%d(%s (*f)(%s *));" % (k, T, T))
+            go += ["//go:linkname d%d C.d%d" % (k, k), "func d%d(f func(p *%s) %s)" % (k, GT, GT)]
+            gbody = "r := *p; %s = %s; return r" % (nm.go_first_leaf("p"), go_scalar_lit(c0, cs.mut_v[0]))
+            if cs.closure:
+                go.append("func case%d() { d%d(func(p *%s) %s { %s }) }" % (k, k, GT, GT, gbody))
+            else:
+                go.append("func g%d(p *%s) %s { %s }" % (k, GT, GT, gbody))
+                go.append("func case%d() { d%d(g%d) }" % (k, k, k))
+            ref.append("static %s g%d(%s *p) { %s r = *p; %s = %s; return r; }" % (T, k, T, T, nm.c_leaf_exprs("(*p)")[0][1], c_scalar_lit(c0, cs.mut_v[0])))
+            ref.append("static void case%d(void) { d%d(g%d); }" % (k, k, k))
+            go.append("")
+            continue
         if cs.has_arg():
             go.append("var va%d = %s" % (k, nm.go_lit(cs.arg_v)))
             ref.append(cval_a)
